@@ -403,6 +403,13 @@ func genTapTweak(r *Rng, n int, w *bufio.Writer) {
 		case 1: // n - k
 			d = append([]byte{}, tapOrderN...)
 			d[31] -= byte(1 + r.Intn(3))
+		case 2: // above the group order: reduced mod n by PrivKeyFromBytes
+			if r.Bool() {
+				d = bytes.Repeat([]byte{0xff}, 32)
+			} else {
+				d = append([]byte{}, tapOrderN...)
+				d[31] += byte(1 + r.Intn(3))
+			}
 		default:
 			d = tapRndPriv(r).Serialize()
 		}
